@@ -143,3 +143,18 @@ impl RunOut {
         }
     }
 }
+
+/// Short, stable name of a ProgramError (fidelity note after ` | `).
+pub fn err_code(e: &solana_program_error::ProgramError) -> String {
+    use solana_program_error::ProgramError as P;
+    match e {
+        P::Custom(c) => format!("c{c}"),
+        P::InvalidArgument => "InvalidArgument".into(),
+        P::InvalidInstructionData => "InvalidInstructionData".into(),
+        P::InvalidAccountData => "InvalidAccountData".into(),
+        P::AccountDataTooSmall => "AccountDataTooSmall".into(),
+        P::ArithmeticOverflow => "ArithmeticOverflow".into(),
+        P::InvalidRealloc => "InvalidRealloc".into(),
+        other => format!("{:?}", other),
+    }
+}
